@@ -195,3 +195,47 @@ theorem checkHash_ok {cfg : Cfg α} {s : Signer} {key b p : Bytes} (h : checkHas
       · simp [hm] at h
 
 end CashewsVerif.Serial
+
+namespace CashewsVerif.Serial
+variable {α : Type}
+
+/-! ### consequences of a successful / failed check for `decode` -/
+
+theorem checkHash_tagged {cfg : Cfg α} {s : Signer} {key : Bytes} (d : Digest) (sig rest : Bytes)
+    (hus : us ∉ sig) :
+    checkHash cfg s key (d.label ++ colon :: (sig ++ us :: rest))
+      = if cfg.mac d s.secret (key ++ rest) = sig then .ok rest else .unsecure := by
+  have hsplit : splitFirst us (d.label ++ colon :: (sig ++ us :: rest)) = some (d.label ++ colon :: sig, rest) := by
+    have : d.label ++ colon :: (sig ++ us :: rest) = (d.label ++ colon :: sig) ++ us :: rest := by simp
+    rw [this]
+    apply splitFirst_append
+    intro m
+    rcases List.mem_append.mp m with m | m
+    · exact label_no_us _ m
+    · rcases List.mem_cons.mp m with e | m
+      · revert e; decide
+      · exact hus m
+  by_cases hm : cfg.mac d s.secret (key ++ rest) = sig <;>
+    simp [checkHash, hsplit, signAndDigest_label, genSign, hm]
+
+/-- a MAC that is injective in (secret, message) — used only to show that the collision-freeness
+hypothesis of C10 is satisfiable: every secret byte is escaped, a 0 separates secret and message -/
+def pairMac (_ : Digest) (s m : Bytes) : Bytes := (s.flatMap fun b => [1, b]) ++ 0 :: m
+
+theorem pairMac_injective (d : Digest) (s s' m m' : Bytes) (h : pairMac d s m = pairMac d s' m') :
+    s = s' ∧ m = m' := by
+  unfold pairMac at h
+  induction s generalizing s' with
+  | nil =>
+    cases s' with
+    | nil => simpa using h
+    | cons b r => simp at h
+  | cons a r ih =>
+    cases s' with
+    | nil => simp at h
+    | cons b r' =>
+      simp only [List.flatMap_cons, List.cons_append, List.nil_append, List.cons.injEq, true_and] at h
+      have := ih r' h.2
+      exact ⟨by rw [h.1, this.1], this.2⟩
+
+end CashewsVerif.Serial
